@@ -44,6 +44,16 @@ func VerifH_C17_scanRange() {
 			ifs[k].Addrs = []net.Addr{&net.IPNet{IP: net.ParseIP("fe80::1"), Mask: net.CIDRMask(64, 128)}}
 		}
 	}
+	// SECOND=1: the first interface carries a second IPv4 address (another network)
+	var b4 []byte
+	if verifParam("SECOND", 0) == 1 {
+		b4 = ndBytes("addr2", 4)
+		bip := net.IP(b4)
+		if verifParam("ADDR16", 1) == 1 {
+			bip = net.IPv4(b4[0], b4[1], b4[2], b4[3])
+		}
+		ifs[0].Addrs = append(ifs[0].Addrs, &net.IPNet{IP: bip, Mask: net.CIDRMask(verifParam("IFP", 24), 32)})
+	}
 	ip.VerifHost.Ifaces = ifs[:]
 	var routes []netlink.Route
 	var def [2]bool
@@ -75,6 +85,10 @@ func VerifH_C17_scanRange() {
 		o.iface = &c
 	}
 	srcipFlag, srcmacFlag := ndBool("srcipFlag"), ndBool("srcmacFlag")
+	if fl := verifParam("FLAGS", -1); fl >= 0 {
+		// the override combination of this run (one process per combination)
+		verifAssume((forced >= 0) == (fl&1 != 0) && srcipFlag == (fl&2 != 0) && srcmacFlag == (fl&4 != 0))
+	}
 	oip, omac := ndBytes("srcip", 4), ndBytes("srcmac", 6)
 	if srcipFlag {
 		o.srcIP = net.IP(oip)
@@ -89,28 +103,38 @@ func VerifH_C17_scanRange() {
 
 	// ---- reference selection, clause by clause ----
 	// attached: the interface's network contains the base address of the target
-	attached := func(k int) bool {
-		if !isV4[k] {
-			return false
-		}
+	onTarget := func(a []byte) bool {
 		ok := true
 		for i := 0; i < 4; i++ {
-			ok = verifAnd(ok, a4[k][i]&ifmask[i] == tb[i]&tmask[i]&ifmask[i])
+			ok = verifAnd(ok, a[i]&ifmask[i] == tb[i]&tmask[i]&ifmask[i])
 		}
 		return ok
 	}
+	// attachedAddr: the interface's own address on the target subnet (first one in address order), or nil
+	attachedAddr := func(k int) []byte {
+		if isV4[k] && onTarget(a4[k]) {
+			return a4[k]
+		}
+		if k == 0 && b4 != nil && onTarget(b4) {
+			return b4
+		}
+		return nil
+	}
+	attached := func(k int) bool { return attachedAddr(k) != nil }
 	chosen := -1
 	var wantIP []byte
 	switch {
 	case forced >= 0:
 		chosen = forced
-		if isV4[forced] {
-			wantIP = a4[forced] // its own address (on the target subnet if attached, else its first address)
+		if aa := attachedAddr(forced); aa != nil {
+			wantIP = aa // its own address on the target subnet
+		} else if isV4[forced] {
+			wantIP = a4[forced] // else its first address
 		}
 	case attached(0):
-		chosen, wantIP = 0, a4[0]
+		chosen, wantIP = 0, attachedAddr(0)
 	case attached(1):
-		chosen, wantIP = 1, a4[1]
+		chosen, wantIP = 1, attachedAddr(1)
 	default:
 		best := -1
 		for k := 0; k < 2; k++ {
